@@ -368,7 +368,15 @@ def pick_indices(rng, N, force_nontrivial=True):
 
 def vary_indices(ctx, idx):
     """the same selection as list / tuple / ndarray (users pass all three)"""
-    v = ctx.evals % 3
+    v = ctx.evals % 4
+    if v == 3:
+        # users write indices=range(2, 5): possible when the selection is an arithmetic progression
+        if len(idx) >= 2 and idx[1] != idx[0]:
+            r = range(idx[0], idx[-1] + (1 if idx[1] > idx[0] else -1), idx[1] - idx[0])
+            if list(r) == list(idx):
+                ctx.count("repr_indices_range")
+                return r
+        return list(idx)
     if v == 1:
         ctx.count("repr_indices_tuple")
         return tuple(idx)
